@@ -345,6 +345,10 @@ def is_crash(tr):
 # ---------------------------------------------------------------- evidence / reporting
 def write_evidence(pid, tier, seed, level, coverage, wall_s, violations=0, assumptions=None):
     os.makedirs(os.path.join(VERIF, 'evidence'), exist_ok=True)
+    if level == 'proof' and coverage.get('discharged', 0) < max(coverage.get('obligations', 1), 1):
+        # the proof obligations did not all check in this run: what the run still did is exploration, not proof
+        level = 'exploration'
+        coverage = dict(coverage, proof_status='broken: %d of %d obligations discharged' % (coverage.get('discharged', 0), coverage.get('obligations', 0)))
     ev = {'property_id': pid, 'tier': tier, 'seed': seed, 'level': level, 'coverage': coverage,
           'assumptions': assumptions or [], 'wall_s': round(wall_s, 2), 'violations': violations}
     with open(os.path.join(VERIF, 'evidence', pid + '.json'), 'w', encoding='utf-8') as f:
